@@ -33,7 +33,7 @@ impl RestorePlan {
 
         let mut steps = Vec::new();
         let mut extern_files: HashSet<PathBuf> = HashSet::new();
-        let mut to_find: HashMap<Hash, Vec<PathBuf>> = HashMap::new();
+        let mut to_find: HashMap<Hash, Vec<(PathBuf, u64)>> = HashMap::new();
 
         info!("Building restoring plan...");
 
@@ -58,12 +58,12 @@ impl RestorePlan {
                     if file.unique || file.size == 0 {
                         own_files.push((path, file.hash, file.size));
                     } else {
-                        to_find.entry(file.hash).or_default().push(path);
+                        to_find.entry(file.hash).or_default().push((path, file.size));
                     }
                 }
 
                 for (path, hash, size) in own_files {
-                    let mut paths = to_find.remove(&hash).unwrap_or_default();
+                    let mut paths = take_paths(to_find.remove(&hash).unwrap_or_default(), size, &mut ok);
                     extern_files.extend(paths.iter().cloned());
 
                     paths.reserve_exact(1);
@@ -85,6 +85,7 @@ impl RestorePlan {
                     }
 
                     if let Some(paths) = to_find.remove(&file.hash) {
+                        let paths = take_paths(paths, file.size, &mut ok);
                         extern_files.extend(paths.iter().cloned());
                         if to_restore.insert(file.path.clone().into(), RestoringFile {
                             hash: file.hash,
@@ -113,7 +114,7 @@ impl RestorePlan {
 
         let mut missing_files = HashSet::new();
         for paths in to_find.into_values() {
-            missing_files.extend(paths);
+            missing_files.extend(paths.into_iter().map(|(path, _size)| path));
         }
 
         if !missing_files.is_empty() {
@@ -126,4 +127,14 @@ impl RestorePlan {
 
         Ok((RestorePlan {steps, extern_files, missing_files}, ok))
     }
+}
+
+fn take_paths(files: Vec<(PathBuf, u64)>, data_size: u64, ok: &mut bool) -> Vec<PathBuf> {
+    files.into_iter().map(|(path, size)| {
+        if size != data_size {
+            error!("{:?} is recorded with {} bytes size, but its data has {} bytes size.", path, size, data_size);
+            *ok = false;
+        }
+        path
+    }).collect()
 }
